@@ -126,6 +126,17 @@ def cases(tier, seed):
                 for ok in ('c', 'c+v3', 'v4', 'p', 'c+p', 'Werr'):
                     for feat in ('slow', 'ret'):
                         yield ['feat', n, g, kind, ok, feat]
+                # layer objects of other shapes: falsy ones (an empty
+                # container, __bool__), layers compared by value whose bases
+                # are equal copies, layers whose name is bound to another
+                # object in their module, layers declared by dotted name
+                for feat in ('len0', 'bool0', 'eq', 'shadow', 'lstr'):
+                    if kind == 'c' and feat not in ('shadow', 'lstr'):
+                        continue
+                    for ok in ('none', 'j2', 'rep', 'shuf'):
+                        yield ['feat', n, g, kind, ok, feat]
+                    for nie in range(n):
+                        yield ['feat', n, g, kind, 'none', feat, nie]
     # a world that is not small: 12 layers (a chain of 3 + 9 independent), 40
     # tests each, with one layer at a time that cannot be torn down
     for nie in (None, 0, 2, 6, 11):
@@ -263,15 +274,22 @@ def run_case(case):
                 'violations': [{'clause': c, 'sig': s, 'detail': d} for c, s, d in vs],
                 'outcome': 'cli', 'counters': {'real_process_runs': 1}}
     if case[0] == 'feat':
-        _, n, g, kind, ok, feat = case
+        _, n, g, kind, ok, feat = case[:6]
         names = worlds.names_for(n, 'fwd')
         layers = worlds.layer_specs(g, kind, names, [list(worlds.HOOKS_SD)] * n)
         for i, L in enumerate(layers):
             if feat == 'slow':
                 L['slow'] = [61, 3700, 0.5][i % 3]     # > 1 minute, > 1 hour
-            else:
+            elif feat == 'ret':
                 L['ret'] = True
-        tests = [{'n': 't' + nm, 'l': nm, 's': 'pass', 'slowt': 75 if feat == 'slow' else None} for nm in names]
+            elif feat == 'shadow':
+                L['shadow'] = True
+            elif feat != 'lstr':
+                L['ish'] = feat
+            if len(case) > 6 and case[6] == i:
+                L['f'] = {'tearDown': 'NIE'}
+        tests = [{'n': 't' + nm, 'l': nm, 's': 'pass', 'slowt': 75 if feat == 'slow' else None,
+                  'lstr': feat == 'lstr'} for nm in names]
         tests.append({'n': 'tf', 'l': names[-1], 's': 'fail'})
         spec = {'layers': layers, 'tests': tests}
         res = runrt.run_world(spec, list(OPTS[ok]), warnings='error' if ok == 'Werr' else None)
@@ -284,7 +302,7 @@ def run_case(case):
         for clause, detail in monitors.check_layer_stack(sv, res, states, transitions):
             viol.append({'clause': clause, 'sig': sg, 'detail': detail[:2000] + '\nargv=%s spec=%s' % (OPTS[ok], spec)})
         ex = collections.Counter(tid for vpid, tid in monitors.executed(res))
-        if set(ex.values()) != {1} or len(ex) != len(tests):
+        if set(ex.values()) != {2 if ok == 'rep' else 1} or len(ex) != len(tests):
             viol.append({'clause': 'executed_count', 'sig': sg, 'detail': '%s\nargv=%s spec=%s' % (dict(ex), OPTS[ok], spec)})
         return {'nontrivial': True, 'violations': viol, 'states': states, 'transitions': transitions,
                 'outcome': ('feat', feat, bool(res.escaped))}
